@@ -40,9 +40,26 @@ class Solver:
         self.fetchers = {b.path for b in lib if b.kind == "Fn" and b.ret_ty == "rule::Rule" and
                          any("HashMap<std::string::String, std::vec::Vec<rule::Rule>>" in b.locals[i]["s"]
                              for i in range(1, b.mir["arg_count"] + 1))}
-        # the solver entry fetches clauses
+        # the solver entry fetches clauses — itself, or in private functions it is split into (a phase function, a
+        # nested module); other public functions are not looked through
+        by_path = {b.path: b for b in lib}
+
+        def private_reach(path):
+            seen, todo = set(), [path]
+            while todo:
+                x = todo.pop()
+                for y in calls.get(x, ()):
+                    yb = by_path.get(y)
+                    if yb is not None and not yb.is_pub and yb.kind in ("Fn", "AssocFn") and y not in seen:
+                        seen.add(y)
+                        todo.append(y)
+            return seen
         entry = [b for b in verdict1 if calls[b.path] & self.fetchers]
+        if not entry:
+            entry = [b for b in verdict1 if b.is_pub and any(calls[y] & self.fetchers for y in private_reach(b.path))]
         self.entry = entry[0] if len(entry) == 1 else None
+        # the entry together with the private functions it is split into
+        self.entry_family = ({self.entry.path} | private_reach(self.entry.path)) if self.entry is not None else set()
         self.and_fn = self.or_fn = self.bip_fn = None
         self.paths_cache = {}
         import inline
@@ -84,6 +101,13 @@ class Solver:
                             raw_write = True
             if raw_write:
                 self.setter = b
+                self.raw_writers = getattr(self, "raw_writers", []) + [b]
+        # when the raw write lives in a private helper, the setter is the method the built-in dispatcher calls, which
+        # reaches that helper through private functions only (the helper is walked into on the setter's paths)
+        if self.setter is not None and not self.setter.is_pub and self.bip_fn is not None:
+            for b in lib:
+                if b.path in calls.get(self.bip_fn.path, ()) and b.kind == "AssocFn" and self.setter.path in private_reach(b.path):
+                    self.setter = b
         mk = [b for b in lib if b.kind == "Fn" and ("Rc<std::cell::RefCell<" + NODE_TY) in b.ret_ty.replace(" ", "")
               and b.ret_ty.replace(" ", "").startswith("std::rc::Rc<")]
         self.make_node = next((b for b in mk if b.mir["arg_count"] == 4), None)
@@ -96,6 +120,29 @@ class Solver:
                 if ps and all(p.end == "return" and strip(p.ret) == ("field", ("param", 1, b.locals[1].get("name") or ""), "no_backtracking")
                               for p in ps):
                     self.flag_readers.add(b.path)
+
+    def family(self, path):
+        """A function together with the private functions that are reached only through it (what it was split into):
+        rules that confine something to one function confine it to this set."""
+        if not hasattr(self, "_callers"):
+            self._callers = {}
+            for p_, cs in self.calls.items():
+                for c in cs:
+                    self._callers.setdefault(c, set()).add(p_)
+            self._by_path = {b.path: b for b in self.prog.lib_bodies()}
+        fam = {path}
+        changed = True
+        while changed:
+            changed = False
+            for x in list(fam):
+                for y in self.calls.get(x, ()):
+                    yb = self._by_path.get(y)
+                    if y in fam or yb is None or yb.is_pub or yb.kind not in ("Fn", "AssocFn"):
+                        continue
+                    if self._callers.get(y, set()) <= fam:
+                        fam.add(y)
+                        changed = True
+        return fam
 
     def paths(self, body, max_visits=2):
         max_visits += self.extra_unroll
